@@ -34,6 +34,17 @@ if case["kind"] == "beam":
 else:
     print("interior nodes:", r["n_interior"], " max |u - u_lin| =", r["err_u_interior"], " scale", r["scale_u"])
     bad = not (r["err_u_interior"] <= 1e-9 * r["scale_u"])
+    pre = r.get("pre") or {}
+    for mv, sp in pre.get("moves_log", []):
+        if sp > 3e-12:
+            print("after Mesh move", mv, ": groups disagree on the node coordinates by", sp); bad = True
+    for lg in ("queries_log", "queries_log_after_solve"):
+        for q, ch, e in pre.get(lg, []):
+            if ch != 0.0:
+                print("read-only call", q, "changed node coordinates by", ch); bad = True
+    if "requery_err_u" in r:
+        print("patch test repeated after the read-only queries: nodes", r["requery_err_u"], "strain", r["requery_err_strain"], "coordinates changed by", r["requery_coord_change"])
+        bad = bad or r["requery_err_u"] > 1e-9 * r["scale_u"] or r["requery_coord_change"] != 0.0
     if case["phys"] == "elastic":
         print("strain error", r["err_strain_comp"], "scale", r["scale_strain"], "| stress error", r["err_stress_comp"], "scale", r["scale_stress"],
               "| Wdef", r["Wdef"], "exact", r["Wdef_exact"])
@@ -135,6 +146,30 @@ def gen_cases(ctx, E):
             c = {"kind": "gmsh", "elem": et, "dim": dim, "L": 2.0, "H": 1.0, "D": 1.0, "layers": 2,
                  "size": {1: 0.5, 2: 0.7 if big else 0.45, 3: 0.6}[dim], "A": A, "b": b,
                  "perm_seed": rng.randrange(10**6), "field_seed": rng.randrange(10**6)}
+            # in-place motions of the mesh through the Mesh API before the patch test (boundary data are read
+            # from mesh.coord AFTER the moves) and read-only queries before / after the solve
+            if dim >= 2:
+                import math
+                def unit(d):
+                    v = [rng.gauss(0, 1) for _ in range(d)] + [0.0] * (3 - d)
+                    nv = math.sqrt(sum(x * x for x in v))
+                    return [x / nv for x in v]
+                def move():
+                    k = rng.choice(["translate", "rotate", "mirror", "coord"])
+                    if k == "translate":
+                        return [k, [rng.uniform(-2, 2) for _ in range(dim)] + [0.0] * (3 - dim)]
+                    if k == "rotate":
+                        return [k, rng.uniform(10, 170), [0.0, 0.0, 1.0] if dim == 2 else unit(3)]
+                    if k == "mirror":
+                        return [k, unit(dim)]
+                    B = [[(1.0 + rng.uniform(-.2, .2)) if i == j else (rng.uniform(-.25, .25) if max(i, j) < dim else 0.0) for j in range(3)] for i in range(3)]
+                    for i in range(dim, 3):
+                        B[i][i] = 1.0
+                    return [k, B]
+                c["moves"] = [move() for _ in range(rng.randint(1, 3))]
+                if not any(m[0] == "mirror" for m in c["moves"]) and rng.random() < 0.5:
+                    c["moves"].insert(rng.randrange(len(c["moves"]) + 1), ["mirror", unit(dim)])
+                c["queries"] = True
             if dim == 1:
                 cases.append(dict(c, phys="thermal", params={"k": rng.uniform(0.5, 5), "c": 1.0}))
                 continue
@@ -146,6 +181,8 @@ def gen_cases(ctx, E):
                 cases[-1]["remap"] = [rng.uniform(3e-5, 9e-5), [0.0, 0.0, 1.0] if dim == 2 else [0.3, -0.5, 0.8]]
                 # every coordinate O(1), away from the coordinate planes: the maps are RELATIVE changes of ~1e-6
                 cases[-1]["b"] = [rng.uniform(3, 4) for _ in range(dim)]
+                cases[-1]["moves"] = [m for m in cases[-1].get("moves", []) if m[0] == "rotate"][:1]
+                cases[-1]["moves"] = []
             if rep == 0 and (not quick or E[et]["order"] <= 2):
                 cases.append(dict(c, phys="thermal", params={"k": rng.uniform(0.5, 5), "c": 1.0, "thickness": 0.8}, field_seed=rng.randrange(10**6)))
         A, b = affine(2)
@@ -244,6 +281,7 @@ def run(ctx):
         return
     results = json.loads(out.split("@@JSON@@")[1])["results"]
     dist, margins, sizes = {}, [], []
+    nmoves, nqueries, qerrors = 0, 0, set()
     for c, r in zip(cases, results):
         n = c["elem"]
         kind = c["kind"]
@@ -275,6 +313,27 @@ def run(ctx):
                     tag, {k: "%.2e" % v for k, v in r["err"].items()}, r["scale"], {k: "%.2e" % v for k, v in r["post"].items() if v > TOL}), rep, True)
             continue
         checks = [("interior nodes", r["err_u_interior"] / r["scale_u"])]
+        pre = r.get("pre") or {}
+        size = 3.0
+        for mvname, sp in pre.get("moves_log", []):
+            okg = sp <= 1e-12 * size
+            nmoves += 1
+            if not okg:
+                ctx.obligation("all groups share the coordinates after Mesh.%s (%s)" % (mvname, tag), False, "%.3e" % sp)
+                ctx.violation("group-coords-diverge:%s:%s" % (mvname, n), "%s: after the in-place move '%s' (sequence %s) the element groups of the mesh no longer share the same node coordinates: max |group.coord - mesh.coord[group.nodes]| = %.3e" % (
+                    tag, mvname, [m[0] for m in c.get("moves", [])], sp), rep, True)
+        for lg in ("queries_log", "queries_log_after_solve"):
+            for qname, ch, qerr in pre.get(lg, []):
+                nqueries += 1
+                if qerr:
+                    qerrors.add("%s: %s" % (qname, qerr[:80]))
+                if ch != 0.0:
+                    ctx.obligation("read-only query leaves the coordinates bit-identical: %s (%s)" % (qname, tag), False, "%.3e" % ch)
+                    ctx.violation("readonly-mutates:" + re.sub(r"\W+", "_", qname), "%s: the read-only call %s changed the node coordinates of the mesh / of a group by up to %.3e" % (tag, qname, ch), rep, True)
+        if "requery_err_u" in r:
+            checks += [("after read-only queries: nodes", r["requery_err_u"] / r["scale_u"]), ("after read-only queries: strain", r["requery_err_strain"] / r["scale_strain"]),
+                       ("after read-only queries: Wdef", abs(r["requery_Wdef"] - r["Wdef_exact"]) / abs(r["Wdef_exact"])),
+                       ("after read-only queries: mesh.coord changed", r["requery_coord_change"])]
         # the hypothesis of patch_equilibrium_partial, evaluated on this mesh
         checks.append(("residual K u_lin at interior dofs", r["residual_interior"] / r["residual_scale"]))
         if c["phys"] == "elastic":
@@ -296,6 +355,9 @@ def run(ctx):
                 tag, r["Nn"], r["n_interior"], "; ".join("%s %.3e" % x for x in bad)), rep, True)
     ctx.cov["case_kinds"] = dist
     ctx.cov["unknowns_of_large_cases"] = sizes
+    ctx.cov["in_place_moves_checked"] = nmoves
+    ctx.cov["read_only_queries_checked_bit_identical"] = nqueries
+    ctx.cov["query_calls_that_raised (not C01's predicate)"] = sorted(qerrors)[:12]
     ctx.cov["worst_relative_error"] = max(margins) if margins else None
     ctx.cov["margin_used_above_1e-12"] = sum(1 for m in margins if 1e-12 < m <= TOL)
     ctx.cov["element_types"] = sorted(set(c["elem"] for c in cases))
